@@ -3,7 +3,7 @@
    (Alg/C13Samplers.v, Alg/C13Solver.v, Alg/C13Steps.v).  Only statements, `exact`, Print Assumptions. *)
 From Coq Require Import List ZArith Arith Bool QArith Qcanon.
 From PV Require Import Base.Index Np.Array Model.Sparse Alg.C13Samplers Alg.C13Solver Alg.C13Steps Alg.C13Config Alg.C13Harness.
-From PV Require Import Model.Repr Model.C08Kruskal Alg.C13Vec.
+From PV Require Import Model.Repr Model.C08Kruskal Alg.C13Vec Model.Harness Alg.C13StepArith.
 Import ListNotations.
 Local Open Scope nat_scope.
 
@@ -104,9 +104,9 @@ Print Assumptions C13_reuse_adagrad.
 Print Assumptions C13_reuse_sequence.
 
 (* ================================ L-BFGS-B wrapper (scipy is an oracle) ========================= *)
-(* under the stated contract of scipy.optimize.fmin_l_bfgs_b (same length, reported value = objective at the returned point,
-   never worse than the start, feasible stays feasible): bounds list, callback slot restored, result vector <-> model,
-   objective <= initial *)
+(* under the stated contract of scipy.optimize.fmin_l_bfgs_b (same length, the returned POINT never worse than the start,
+   feasible stays feasible; nothing about the reported value): bounds list, callback slot restored, returned model =
+   scipy's returned vector read back (not the last evaluated point), objective <= initial *)
 Theorem C13_lbfgsb_wrap : forall (Mdl V F CB KW : Type) (leb : F -> F -> bool) (vle : V -> V -> Prop)
   (tovec : Mdl -> list V) (update : Mdl -> list V -> Mdl) (objective : Mdl -> F) (wf : Mdl -> Prop),
   (forall m, wf m -> update m (tovec m) = m) ->
@@ -115,9 +115,9 @@ Theorem C13_lbfgsb_wrap : forall (Mdl V F CB KW : Type) (leb : F -> F -> bool) (
   let o := lbfgsb_solve Mdl V F CB KW tovec update objective scipy (mkKw CB KW (UserCb CB cb) other) m0 lb in
   o_bounds _ _ _ _ _ o = repeat (lb, None) (length (tovec m0)) /\
   kw_callback _ _ (o_kwargs_during _ _ _ _ _ o) = MonitorOf CB cb /\ o_kwargs _ _ _ _ _ o = mkKw CB KW (UserCb CB cb) other /\
-  tovec (o_model _ _ _ _ _ o) = o_final_vector _ _ _ _ _ o /\ objective (o_model _ _ _ _ _ o) = o_final_f _ _ _ _ _ o /\
-  leb (objective (o_model _ _ _ _ _ o)) (objective m0) = true /\
-  (Forall (within V vle lb) (tovec m0) -> Forall (within V vle lb) (tovec (o_model _ _ _ _ _ o))).
+  tovec (o_model _ _ _ _ _ o) = o_final_vector _ _ _ _ _ o /\
+  (Forall (within V vle lb) (tovec m0) ->
+   leb (objective (o_model _ _ _ _ _ o)) (objective m0) = true /\ Forall (within V vle lb) (tovec (o_model _ _ _ _ _ o))).
 Proof. intros Mdl V F CB KW leb vle tovec update objective wf H1 H2 scipy. exact (lbfgsb_wrap Mdl V F CB KW leb vle tovec update objective wf H1 H2 scipy). Qed.
 Print Assumptions C13_lbfgsb_wrap.
 
@@ -130,12 +130,38 @@ Theorem C13_lbfgsb_wrap_ktensor : forall (V : Type) (v0 : V) (F CB KW : Type) (l
   let o := lbfgsb_solve (ktensor V) V F CB KW (tovec_f V v0) (update_all V v0) objective scipy (mkKw CB KW (UserCb CB cb) other) K0 lb in
   o_bounds _ _ _ _ _ o = repeat (lb, None) (krank K0 * sum_nat (kshape K0)) /\
   kw_callback _ _ (o_kwargs_during _ _ _ _ _ o) = MonitorOf CB cb /\ o_kwargs _ _ _ _ _ o = mkKw CB KW (UserCb CB cb) other /\
-  tovec_f V v0 (o_model _ _ _ _ _ o) = o_final_vector _ _ _ _ _ o /\ objective (o_model _ _ _ _ _ o) = o_final_f _ _ _ _ _ o /\
-  leb (objective (o_model _ _ _ _ _ o)) (objective K0) = true /\
-  (Forall (within V vle lb) (tovec_f V v0 K0) -> Forall (within V vle lb) (tovec_f V v0 (o_model _ _ _ _ _ o))) /\
+  tovec_f V v0 (o_model _ _ _ _ _ o) = o_final_vector _ _ _ _ _ o /\
+  (Forall (within V vle lb) (tovec_f V v0 K0) ->
+   leb (objective (o_model _ _ _ _ _ o)) (objective K0) = true /\ Forall (within V vle lb) (tovec_f V v0 (o_model _ _ _ _ _ o))) /\
   kshape (o_model _ _ _ _ _ o) = kshape K0 /\ krank (o_model _ _ _ _ _ o) = krank K0.
 Proof. exact lbfgsb_wrap_ktensor. Qed.
 Print Assumptions C13_lbfgsb_wrap_ktensor.
+
+(* info["final_f"]: equal to the objective of the returned model, hence no worse than the start, on every run in which scipy
+   reports the value at the point it returns (all runs without an abandoned line search; otherwise finding C13-L1) *)
+Theorem C13_lbfgsb_final_f : forall (Mdl V F CB KW : Type) (leb : F -> F -> bool) (vle : V -> V -> Prop)
+  (tovec : Mdl -> list V) (update : Mdl -> list V -> Mdl) (objective : Mdl -> F) (wf : Mdl -> Prop),
+  (forall m, wf m -> update m (tovec m) = m) ->
+  (forall m v, length v = length (tovec m) -> tovec (update m v) = v) ->
+  forall scipy, scipy_contract V F CB KW leb vle scipy -> scipy_reports_value V F CB KW scipy -> forall cb other m0 lb, wf m0 ->
+  Forall (within V vle lb) (tovec m0) ->
+  let o := lbfgsb_solve Mdl V F CB KW tovec update objective scipy (mkKw CB KW (UserCb CB cb) other) m0 lb in
+  objective (o_model _ _ _ _ _ o) = o_final_f _ _ _ _ _ o /\ leb (o_final_f _ _ _ _ _ o) (objective m0) = true.
+Proof.
+  intros Mdl V F CB KW leb vle tovec update objective wf H1 H2 scipy HC HR cb other m0 lb Hwf Hfeas.
+  exact (conj (lbfgsb_final_f Mdl V F CB KW tovec update objective scipy HR (mkKw CB KW (UserCb CB cb) other) m0 lb)
+              (lbfgsb_final_f_le Mdl V F CB KW leb vle tovec update objective wf H1 H2 scipy HC HR cb other m0 lb Hwf Hfeas)).
+Qed.
+Print Assumptions C13_lbfgsb_final_f.
+
+(* LBFGSB.Monitor: at most max(maxiter, 1) callbacks (scipy's loop) against maxiter time_trace slots: no IndexError for every
+   maxiter >= 1, IndexError at the first callback for maxiter = 0 (open finding C13-L2), never with max(maxiter, 1) slots *)
+Theorem C13_lbfgsb_monitor : forall maxiter ncalls, ncalls <= Nat.max maxiter 1 ->
+  (1 <= maxiter -> monitor_raises (monitor_slots maxiter) ncalls = false) /\
+  monitor_raises (monitor_slots_fixed maxiter) ncalls = false /\
+  (monitor_raises (monitor_slots 0) ncalls = true <-> 1 <= ncalls).
+Proof. exact monitor_index. Qed.
+Print Assumptions C13_lbfgsb_monitor.
 
 Theorem C13_lbfgsb_reuse : forall (Mdl V F CB KW : Type) (tovec : Mdl -> list V) (update : Mdl -> list V -> Mdl) (objective : Mdl -> F)
   scipy cb other m0 lb m1 lb1,
@@ -221,6 +247,92 @@ Theorem C13_bounds_epoch : forall (V : Type) (vle : V -> V -> Prop) (S : Type)
 Proof. exact epoch_above. Qed.
 Print Assumptions C13_bounds_epoch.
 
+(* ================================ update arithmetic in exact rationals ========================== *)
+(* the transliterated steps of Alg/C13Steps.v over the field Qc; the square root is an oracle sq of which only 0 <= sq x is
+   assumed.  Entry-wise closed forms, the direction of the step for a feasible entry, fixed points, state updates. *)
+Local Open Scope Qc_scope.
+(* SGD: x' = max(lb, x - decay^nfails * rate * g); each failed epoch multiplies the step by decay *)
+Theorem C13_sgd_step_arith : forall rate decay nf lb xs gs, length gs = length xs ->
+  length (qsgd_step rate decay nf lb xs gs) = length xs /\
+  forall k, (k < length xs)%nat ->
+    let x := nth k xs 0 in let g := nth k gs 0 in let x' := nth k (qsgd_step rate decay nf lb xs gs) 0 in
+    x' = clamp Qc qmax lb (x - sgd_stepsize rate decay nf * g) /\ above Qc Qcle lb x' /\
+    (0 <= rate -> 0 <= decay ->
+       (above Qc Qcle lb x -> 0 <= g -> x' <= x) /\ (g <= 0 -> x <= x') /\ (above Qc Qcle lb x -> g = 0 -> x' = x)).
+Proof. exact sgd_step_arith. Qed.
+Print Assumptions C13_sgd_step_arith.
+Theorem C13_sgd_stepsize : forall rate decay nf,
+  sgd_stepsize rate decay 0 = rate /\ sgd_stepsize rate decay (S nf) = decay * sgd_stepsize rate decay nf /\
+  (0 <= rate -> 0 <= decay -> 0 <= sgd_stepsize rate decay nf).
+Proof.
+  intros rate decay nf.
+  exact (conj (Qcmult_1_l rate) (conj (sgd_stepsize_fail rate decay nf) (sgd_stepsize_nonneg rate decay nf))).
+Qed.
+Print Assumptions C13_sgd_stepsize.
+
+(* Adagrad: the accumulator grows by the squared gradient norm, step = 1 / sqrt(accumulator) >= 0, x' = max(lb, x - step * g);
+   after reset_state / a failed epoch the accumulator is the squared norm of that step's gradient alone *)
+Theorem C13_adagrad_step_arith : forall (sq : Qc -> Qc), (forall x, 0 <= sq x) -> forall lb gsum xs gs, length gs = length xs ->
+  let gsum' := snd (qadagrad_step sq lb gsum xs gs) in let step := 1 / sq gsum' in
+  gsum' = gsum + sumsq gs /\ gsum <= gsum' /\ (0 <= gsum -> 0 <= gsum') /\ 0 <= step /\
+  length (fst (qadagrad_step sq lb gsum xs gs)) = length xs /\
+  forall k, (k < length xs)%nat ->
+    let x := nth k xs 0 in let g := nth k gs 0 in let x' := nth k (fst (qadagrad_step sq lb gsum xs gs)) 0 in
+    x' = clamp Qc qmax lb (x - step * g) /\ above Qc Qcle lb x' /\
+    (above Qc Qcle lb x -> 0 <= g -> x' <= x) /\ (g <= 0 -> x <= x') /\ (above Qc Qcle lb x -> g = 0 -> x' = x).
+Proof. exact adagrad_step_arith. Qed.
+Print Assumptions C13_adagrad_step_arith.
+Theorem C13_adagrad_after_reset : forall (sq : Qc -> Qc) lb g0 xs gs,
+  snd (qadagrad_step sq lb (adagrad_reset Qc 0 g0) xs gs) = sumsq gs.
+Proof. exact adagrad_after_reset. Qed.
+Print Assumptions C13_adagrad_after_reset.
+
+(* Adam: moments, bias corrections with the step counter that advances by epoch_iters per step, projected update *)
+Theorem C13_adam_step_arith : forall (sq : Qc -> Qc), (forall x, 0 <= sq x) -> forall rate decay b1 b2 eps ei nf lb o xs gs,
+  let m0 := adam_m0 o xs in let w0 := adam_w0 o xs in
+  length gs = length xs -> length m0 = length xs -> length w0 = length xs ->
+  let r := qadam_step sq rate decay b1 b2 eps ei nf lb o xs gs in
+  let t := (atot Qc o + ei)%nat in
+  atot Qc (snd r) = t /\ am_prev Qc (snd r) = m0 /\ av_prev Qc (snd r) = w0 /\
+  length (fst r) = length xs /\ length (am Qc (snd r)) = length xs /\ length (av Qc (snd r)) = length xs /\
+  forall k, (k < length xs)%nat ->
+    let x := nth k xs 0 in let g := nth k gs 0 in
+    let m' := nth k (am Qc (snd r)) 0 in let v' := nth k (av Qc (snd r)) 0 in let x' := nth k (fst r) 0 in
+    m' = b1 * nth k m0 0 + (1 - b1) * g /\ v' = b2 * nth k w0 0 + (1 - b2) * (g * g) /\
+    x' = clamp Qc qmax lb (x - (sgd_stepsize rate decay nf * (m' / (1 - b1 ^ t))) / (sq (v' / (1 - b2 ^ t)) + eps)) /\
+    above Qc Qcle lb x' /\
+    (0 <= rate -> 0 <= decay -> 0 < eps -> 0 <= b1 -> b1 < 1 -> (1 <= ei)%nat ->
+       (above Qc Qcle lb x -> 0 <= m' -> x' <= x) /\ (m' <= 0 -> x <= x') /\ (above Qc Qcle lb x -> m' = 0 -> x' = x)).
+Proof. exact adam_step_arith. Qed.
+Print Assumptions C13_adam_step_arith.
+(* the first step after reset_state(): moments (1 - beta_1) g and (1 - beta_2) g^2; a feasible entry moves against the gradient *)
+Theorem C13_adam_first_step : forall (sq : Qc -> Qc), (forall x, 0 <= sq x) -> forall rate decay b1 b2 eps ei nf lb o xs gs,
+  length gs = length xs ->
+  let r := qadam_step sq rate decay b1 b2 eps ei nf lb (adam_reset Qc o) xs gs in
+  atot Qc (snd r) = ei /\
+  forall k, (k < length xs)%nat ->
+    let x := nth k xs 0 in let g := nth k gs 0 in let x' := nth k (fst r) 0 in
+    nth k (am Qc (snd r)) 0 = (1 - b1) * g /\ nth k (av Qc (snd r)) 0 = (1 - b2) * (g * g) /\
+    (0 <= rate -> 0 <= decay -> 0 < eps -> 0 <= b1 -> b1 < 1 -> (1 <= ei)%nat ->
+       (above Qc Qcle lb x -> 0 <= g -> x' <= x) /\ (g <= 0 -> x <= x') /\ (above Qc Qcle lb x -> g = 0 -> x' = x)).
+Proof. exact adam_first_step_arith. Qed.
+Print Assumptions C13_adam_first_step.
+Local Close Scope Qc_scope.
+(* set_failed_epoch of Adam (any value type): moments and step counter go back to what they were before the LAST step *)
+Theorem C13_adam_failed_epoch : forall (V : Type) (vmax vadd vsub vmul vdiv : V -> V -> V) (vsqrt : V -> V) (vpow : V -> nat -> V) (v0 v1 : V)
+  rate decay b1 b2 eps ei nf lb o xs gs,
+  (atot V o <> 0 ->
+   adam_failed V ei (snd (adam_step V vmax vadd vsub vmul vdiv vsqrt vpow v0 v1 rate decay b1 b2 eps ei nf lb o xs gs)) =
+   mkAdam V (am V o) (av V o) (am V o) (av V o) (atot V o)) /\
+  adam_failed V ei (snd (adam_step V vmax vadd vsub vmul vdiv vsqrt vpow v0 v1 rate decay b1 b2 eps ei nf lb (adam_reset V o) xs gs)) =
+  mkAdam V (map (fun _ => v0) xs) (map (fun _ => v0) xs) (map (fun _ => v0) xs) (map (fun _ => v0) xs) 0.
+Proof.
+  intros V vmax vadd vsub vmul vdiv vsqrt vpow v0 v1 rate decay b1 b2 eps ei nf lb o xs gs.
+  exact (conj (adam_failed_after_step V vmax vadd vsub vmul vdiv vsqrt vpow v0 v1 rate decay b1 b2 eps ei nf lb o xs gs)
+              (adam_failed_after_first_step V vmax vadd vsub vmul vdiv vsqrt vpow v0 v1 rate decay b1 b2 eps ei nf lb o xs gs)).
+Qed.
+Print Assumptions C13_adam_failed_epoch.
+
 (* ================================ samplers (draws are inputs) ================================== *)
 Local Open Scope Z_scope.
 (* one draw u = a/D in [0,1) — 0.0 included — gives floor(u*d), a subscript inside the mode (A-48 repaired) ... *)
@@ -296,6 +408,25 @@ Theorem C13_sampler_weights : forall (c : Qc) (n : nat), (0 < n)%nat ->
   wsum (even_weights c n) = c /\ length (even_weights c n) = n.
 Proof. exact even_weights_total. Qed.
 Print Assumptions C13_sampler_weights.
+(* stratified / semi-stratified: one weight per requested sample — num_nonzeros weights nnz/num_nonzeros then num_zeros weights
+   zeros/num_zeros; for EVERY request (also more nonzero samples than there are nonzeros, or more zero samples than zeros) the
+   nonzero weights total the number of nonzeros and the zero weights the number of entries of the zero stratum, and there is one
+   weight per value of the sample *)
+Theorem C13_stratified_weights : forall (nnzq zerosq : Qc) (cn cz : nat),
+  length (strat_weights nnzq zerosq cn cz) = (cn + cz)%nat /\
+  ((0 < cn)%nat -> wsum (firstn cn (strat_weights nnzq zerosq cn cz)) = nnzq) /\
+  ((0 < cz)%nat -> wsum (skipn cn (strat_weights nnzq zerosq cn cz)) = zerosq) /\
+  (forall (V : Type) (v0 : V) (S : sparse V) nidx, length nidx = cn ->
+     length (strat_weights nnzq zerosq cn cz) = length (strat_vals v0 S nidx cz)).
+Proof.
+  intros nnzq zerosq cn cz.
+  exact (conj (proj1 (strat_weights_total nnzq zerosq cn cz))
+        (conj (proj1 (proj2 (strat_weights_total nnzq zerosq cn cz)))
+        (conj (proj2 (proj2 (strat_weights_total nnzq zerosq cn cz)))
+              (fun V v0 S nidx H => eq_trans (proj1 (strat_weights_total nnzq zerosq cn cz))
+                 (eq_sym (eq_trans (proj2 (strat_lengths 1%Z v0 S nil nidx nil cz)) (f_equal (fun n => (n + cz)%nat) H))))))).
+Qed.
+Print Assumptions C13_stratified_weights.
 
 (* non-vacuity on concrete non-symmetric instances *)
 Example C13_example_extreme_draws :
